@@ -621,85 +621,42 @@ Qed.
 (* ============================================================================================ *)
 (* the header encoding of a status that carries details (tonic/src/status.rs, model of C04) *)
 
-(* C04's [status_roundtrip] asks that the user metadata has no grpc-status-details-bin entry of its
-   own.  Whenever the status has details bytes that premise is not needed: add_header INSERTS the
-   details header, which replaces whatever the metadata had under that name, and from_header_map
-   removes the name from the metadata it returns. *)
+(* C04's round trip ([status_roundtrip_full], Proofs/Status.v) needs no premise on the user
+   metadata since fix ed827503 (F-C04e): add_header INSERTS the details header when the status has
+   details bytes - replacing whatever the metadata had under that name - and REMOVES it when it has
+   none; from_header_map removes the name from the metadata it returns. *)
 Theorem status_roundtrip_details st :
   well_formed st -> utf8_valid (st_msg st) = true ->
-  (st_details st <> [] \/ hm_get_all (st_md st) hdr_grpc_status_details = []) ->
   exists m st',
     to_header_map st = Some m /\ from_header_map m = Some st' /\
     st_code st' = st_code st /\ st_msg st' = st_msg st /\ st_details st' = st_details st /\
     forall k, hm_get_all (st_md st') k =
               if bytes_eqb k hdr_grpc_status_details then [] else hm_get_all (sanitize (st_md st)) k.
-Proof.
-  intros WF Hutf Hown. pose proof WF as (Hc & Hm & Hd).
-  destruct (code_roundtrip _ Hc) as [cv (Hcv & Hback & _)].
-  destruct (add_header_pointwise st cv WF Hcv) as [m [Hm1 Hpt]].
-  exists m.
-  destruct names_distinct as (SM & SD & MD & MS & DS & DM).
-  assert (GS : hm_get_all m hdr_grpc_status = [cv]).
-  { rewrite Hpt. unfold written. now rewrite bytes_eqb_refl. }
-  assert (GM : hm_get_all m hdr_grpc_message =
-               match st_msg st with [] => [] | _ => [pct_encode in_encoding_set (st_msg st)] end).
-  { rewrite Hpt. unfold written. now rewrite MS, bytes_eqb_refl. }
-  assert (GD : hm_get_all m hdr_grpc_status_details =
-               match st_details st with [] => [] | _ => [enc false (st_details st)] end).
-  { rewrite Hpt. unfold written. rewrite DS, DM, bytes_eqb_refl.
-    destruct (st_details st); [|reflexivity]. destruct Hown as [Hne|Hno]; [now contradiction Hne|exact Hno]. }
-  assert (Dmsg : pct_decode (pct_encode in_encoding_set (st_msg st)) = st_msg st).
-  { apply pct_decode_encode; [exact pct_in_set | exact Hm]. }
-  assert (Ddet : dec (enc false (st_details st)) = Some (st_details st)).
-  { now apply dec_enc. }
-  assert (MD' : forall k,
-     hm_get_all (hm_remove (hm_remove (hm_remove m hdr_grpc_status) hdr_grpc_message) hdr_grpc_status_details) k
-     = if bytes_eqb k hdr_grpc_status_details then [] else hm_get_all (sanitize (st_md st)) k).
-  { intros k. rewrite get_all_remove3, Hpt. unfold written.
-    destruct (bytes_eqb k hdr_grpc_status) eqn:K1.
-    { apply bytes_eqb_eq in K1; subst k; cbn [orb]. rewrite SD. now rewrite get_all_sanitize, reserved_status. }
-    destruct (bytes_eqb k hdr_grpc_message) eqn:K2.
-    { apply bytes_eqb_eq in K2; subst k; cbn [orb]. rewrite MD. now rewrite get_all_sanitize, reserved_message. }
-    destruct (bytes_eqb k hdr_grpc_status_details) eqn:K3; reflexivity. }
-  unfold from_header_map, hm_get. rewrite GS, GM, GD. cbn [hd_error].
-  destruct (st_msg st) as [|a l] eqn:E1; destruct (st_details st) as [|a' l'] eqn:E2; cbn [hd_error].
-  - eexists. repeat split; try reflexivity; try exact Hm1; try exact Hback. exact MD'.
-  - rewrite Ddet. eexists. repeat split; try reflexivity; try exact Hm1; try exact Hback. exact MD'.
-  - cbn zeta. rewrite Dmsg, Hutf. eexists. repeat split; try reflexivity; try exact Hm1; try exact Hback. exact MD'.
-  - cbn zeta. rewrite Dmsg, Hutf, Ddet. eexists. repeat split; try reflexivity; try exact Hm1; try exact Hback. exact MD'.
-Qed.
+Proof. exact (status_roundtrip_full st). Qed.
 
-(* ... and when the status has NO details bytes, a grpc-status-details-bin entry of the caller's own
-   metadata is what travels: its first value, base64-decoded, is the details of the status read
-   back (an undecodable one degrades the status to UNKNOWN without details) *)
+(* ... in particular when the status has NO details bytes and the caller's own metadata has a
+   grpc-status-details-bin entry: the entry does not travel and is NOT read as the details (before
+   the fix its first value, base64-decoded, became the details of the status read back, and an
+   undecodable one degraded the status to UNKNOWN) *)
 Theorem status_own_details_entry st v rest :
   well_formed st -> utf8_valid (st_msg st) = true -> st_details st = [] ->
   hm_get_all (st_md st) hdr_grpc_status_details = v :: rest ->
   exists m st',
     to_header_map st = Some m /\ from_header_map m = Some st' /\
-    match dec v with
-    | Some d => st_code st' = st_code st /\ st_msg st' = st_msg st /\ st_details st' = d
-    | None => st_code st' = Code_Unknown /\ st_details st' = []
-    end.
+    hm_get_all m hdr_grpc_status_details = [] /\
+    st_code st' = st_code st /\ st_msg st' = st_msg st /\ st_details st' = [] /\
+    hm_get_all (st_md st') hdr_grpc_status_details = [].
 Proof.
-  intros WF Hutf Hnod Hown. pose proof WF as (Hc & Hm & Hd).
-  destruct (code_roundtrip _ Hc) as [cv (Hcv & Hback & _)].
+  intros WF Hutf Hnod _. pose proof WF as (Hc & _ & _).
+  destruct (code_roundtrip _ Hc) as [cv (Hcv & _ & _)].
   destruct (add_header_pointwise st cv WF Hcv) as [m [Hm1 Hpt]].
-  exists m.
-  destruct names_distinct as (SM & SD & MD & MS & DS & DM).
-  assert (GS : hm_get_all m hdr_grpc_status = [cv]).
-  { rewrite Hpt. unfold written. now rewrite bytes_eqb_refl. }
-  assert (GM : hm_get_all m hdr_grpc_message =
-               match st_msg st with [] => [] | _ => [pct_encode in_encoding_set (st_msg st)] end).
-  { rewrite Hpt. unfold written. now rewrite MS, bytes_eqb_refl. }
-  assert (GD : hm_get_all m hdr_grpc_status_details = v :: rest).
-  { rewrite Hpt. unfold written. rewrite DS, DM, bytes_eqb_refl, Hnod. exact Hown. }
-  assert (Dmsg : pct_decode (pct_encode in_encoding_set (st_msg st)) = st_msg st).
-  { apply pct_decode_encode; [exact pct_in_set | exact Hm]. }
-  unfold from_header_map, hm_get. rewrite GS, GM, GD. cbn [hd_error].
-  destruct (st_msg st) as [|a l] eqn:E1; cbn [hd_error]; cbn zeta; rewrite ?Dmsg, ?Hutf;
-    destruct (dec v) as [d|]; eexists; (split; [exact Hm1|]); (split; [reflexivity|]); cbn [st_code st_msg st_details];
-    repeat split; try reflexivity; exact Hback.
+  destruct (status_roundtrip_full st WF Hutf) as (m' & st' & H1 & H2 & H3 & H4 & H5 & H6).
+  assert (m' = m) by congruence. subst m'.
+  exists m, st'. repeat split; try assumption.
+  - rewrite Hpt. unfold written. destruct names_distinct as (SM & SD & MD & MS & DS & DM).
+    now rewrite DS, DM, bytes_eqb_refl, Hnod.
+  - now rewrite H5.
+  - rewrite H6. now rewrite bytes_eqb_refl.
 Qed.
 
 (* ============================================================================================ *)
@@ -758,11 +715,11 @@ Lemma details_empty md : with_error_details_vec_c 0 [] [] md = Ok (mkStatus 0 []
 Proof. reflexivity. Qed.
 
 (* attach a list, travel through the header encoding, decode: everything at once.  The caller's own
-   grpc-status-details-bin metadata entries, if any, do not matter as soon as something is attached *)
+   grpc-status-details-bin metadata entries, if any, do not matter (fix ed827503; before it they did
+   when nothing at all was attached) *)
 Theorem attach_and_travel code message ds md :
   is_code code = true -> utf8_valid message = true -> bytes_ok message = true ->
   Forall detail_ok ds -> fits_c code message ds ->
-  hm_get_all md hdr_grpc_status_details = [] \/ something_attached code message ds ->
   exists st m st' conv,
     with_error_details_vec_c code message ds md = Ok st /\
     to_header_map st = Some m /\ from_header_map m = Some st' /\
@@ -774,30 +731,15 @@ Theorem attach_and_travel code message ds md :
     dec_status_c (st_details st') = Ok (mkPbStatus (Z.of_N code) message conv) /\
     map fst conv = map (fun d => type_url (kind_of d)) ds.
 Proof.
-  intros Hc Hu Hb Hds Hfit Hmd.
+  intros Hc Hu Hb Hds Hfit.
   destruct (attach_vec enc_detail_c dec_detail_c enc_status_c dec_status_c detail_ok
               detail_rt_c dec_detail_good_c status_rt_c status_bytes_ok_c status_sub_c dec_status_good_c code message ds md
               (is_code_small _ Hc) Hu Hb Hds Hfit)
     as (st & conv & Est & Ecode & Emsg & Emd & Bdet & Fconv & Hdec).
   assert (WF : well_formed st).
   { unfold well_formed. rewrite Ecode, Emsg. auto. }
-  assert (Hown : st_details st <> [] \/ hm_get_all (st_md st) hdr_grpc_status_details = []).
-  { destruct Hmd as [Hno|Hsome]; [right; now rewrite Emd|left].
-    destruct (Hdec st eq_refl) as [_ _].
-    (* the details bytes are the encoding of (code, message, conv) *)
-    assert (Ed : st_details st = enc_status_c (mkPbStatus (Z.of_N code) message conv)).
-    { clear - Est Fconv. unfold with_error_details_vec_c, with_error_details_vec_and_metadata in Est.
-      assert (Em : map_res (into_any enc_detail_c) ds = Ok conv).
-      { clear Est. induction Fconv as [|d a ds conv (U & E & _) _ IH]; [reflexivity|]. cbn [map_res].
-        unfold into_any at 1. rewrite E. cbn [bind]. rewrite IH. destruct a as [u v]. cbn [fst snd] in *. now rewrite U. }
-      rewrite Em in Est. cbn [bind] in Est. unfold gen_details_bytes in Est.
-      destruct (nlen _ <=? USIZE_MAX); [|discriminate]. cbn [bind] in Est. now injection Est as <-. }
-    rewrite Ed. apply details_nonempty.
-    destruct Hsome as [H|[H|H]]; [now left|right; now left|right; right].
-    intros ->. inversion Fconv; subst. now apply H. }
   destruct (status_roundtrip_details st WF) as (m & st' & Hm & Hback & Hc' & Hm' & Hd' & Hmd').
   { now rewrite Emsg. }
-  { exact Hown. }
   exists st, m, st', conv. destruct (Hdec st' Hd') as [Dps Rec].
   split; [exact Est|]. split; [exact Hm|]. split; [exact Hback|].
   split; [congruence|]. split; [congruence|]. split; [exact Hd'|]. split; [exact Emd|].
@@ -809,7 +751,6 @@ Qed.
 Theorem details_vec_roundtrip code message ds md :
   is_code code = true -> utf8_valid message = true -> bytes_ok message = true ->
   Forall detail_ok ds -> fits_c code message ds ->
-  hm_get_all md hdr_grpc_status_details = [] \/ something_attached code message ds ->
   exists st m st',
     with_error_details_vec_c code message ds md = Ok st /\
     to_header_map st = Some m /\ from_header_map m = Some st' /\
@@ -818,8 +759,8 @@ Theorem details_vec_roundtrip code message ds md :
     check_error_details_c st' = Ok (last_wins ds) /\ get_error_details_c st' = Ok (last_wins ds) /\
     forall k, get_details_c k st' = Ok (first_of_kind k ds).
 Proof.
-  intros Hc Hu Hb Hds Hfit Hmd.
-  destruct (attach_and_travel code message ds md Hc Hu Hb Hds Hfit Hmd)
+  intros Hc Hu Hb Hds Hfit.
+  destruct (attach_and_travel code message ds md Hc Hu Hb Hds Hfit)
     as (st & m & st' & conv & E1 & E2 & E3 & E4 & E5 & _ & _ & _ & (R1 & R2 & R3 & R4 & R5) & _).
   exists st, m, st'. repeat (split; [assumption|]). exact R5.
 Qed.
@@ -829,7 +770,6 @@ Qed.
 Theorem details_set_roundtrip code message ed md :
   is_code code = true -> utf8_valid message = true -> bytes_ok message = true ->
   ed_ok ed -> fits_c code message (pushed ed) ->
-  hm_get_all md hdr_grpc_status_details = [] \/ something_attached code message (pushed ed) ->
   exists st m st',
     with_error_details_c code message ed md = Ok st /\
     to_header_map st = Some m /\ from_header_map m = Some st' /\
@@ -838,8 +778,8 @@ Theorem details_set_roundtrip code message ed md :
     check_error_details_vec_c st' = Ok (pushed ed) /\ get_error_details_vec_c st' = Ok (pushed ed) /\
     forall k, get_details_c k st' = Ok (ed_get k ed).
 Proof.
-  intros Hc Hu Hb Hds Hfit Hmd.
-  destruct (details_vec_roundtrip code message (pushed ed) md Hc Hu Hb Hds Hfit Hmd)
+  intros Hc Hu Hb Hds Hfit.
+  destruct (details_vec_roundtrip code message (pushed ed) md Hc Hu Hb Hds Hfit)
     as (st & m & st' & E1 & E2 & E3 & E4 & E5 & R1 & R2 & R3 & R4 & R5).
   exists st, m, st'. rewrite with_error_details_is_vec. rewrite last_wins_pushed in R3, R4.
   repeat (split; [assumption|]). intros k. rewrite R5. f_equal. apply first_of_kind_pushed.
@@ -850,7 +790,6 @@ Qed.
 Theorem embedded_status_matches_outer code message ds md :
   is_code code = true -> utf8_valid message = true -> bytes_ok message = true ->
   Forall detail_ok ds -> fits_c code message ds ->
-  hm_get_all md hdr_grpc_status_details = [] \/ something_attached code message ds ->
   exists st m st' ps,
     with_error_details_vec_c code message ds md = Ok st /\
     to_header_map st = Some m /\ from_header_map m = Some st' /\
@@ -858,8 +797,8 @@ Theorem embedded_status_matches_outer code message ds md :
     ps_code ps = Z.of_N (st_code st') /\ ps_message ps = st_msg st' /\
     map fst (ps_details ps) = map (fun d => type_url (kind_of d)) ds.
 Proof.
-  intros Hc Hu Hb Hds Hfit Hmd.
-  destruct (attach_and_travel code message ds md Hc Hu Hb Hds Hfit Hmd)
+  intros Hc Hu Hb Hds Hfit.
+  destruct (attach_and_travel code message ds md Hc Hu Hb Hds Hfit)
     as (st & m & st' & conv & E1 & E2 & E3 & E4 & E5 & _ & _ & _ & _ & D & U).
   exists st, m, st', (mkPbStatus (Z.of_N code) message conv). cbn [ps_code ps_message ps_details].
   repeat (split; [assumption|]). split; [now rewrite E4|]. split; [now rewrite E5|exact U].
@@ -872,7 +811,6 @@ Qed.
 Theorem metadata_kept code message ds md :
   is_code code = true -> utf8_valid message = true -> bytes_ok message = true ->
   Forall detail_ok ds -> fits_c code message ds ->
-  hm_get_all md hdr_grpc_status_details = [] \/ something_attached code message ds ->
   exists st m st',
     with_error_details_vec_c code message ds md = Ok st /\ st_md st = md /\
     to_header_map st = Some m /\ from_header_map m = Some st' /\
@@ -880,25 +818,26 @@ Theorem metadata_kept code message ds md :
               if bytes_eqb k hdr_grpc_status_details || existsb (fun k' => bytes_eqb k' k) reserved_headers
               then [] else hm_get_all md k.
 Proof.
-  intros Hc Hu Hb Hds Hfit Hmd.
-  destruct (attach_and_travel code message ds md Hc Hu Hb Hds Hfit Hmd)
+  intros Hc Hu Hb Hds Hfit.
+  destruct (attach_and_travel code message ds md Hc Hu Hb Hds Hfit)
     as (st & m & st' & conv & E1 & E2 & E3 & _ & _ & _ & Emd & Hk & _).
   exists st, m, st'. repeat (split; [assumption|]). intros k. rewrite Hk.
   destruct (bytes_eqb k hdr_grpc_status_details); [reflexivity|]. cbn [orb]. apply get_all_sanitize.
 Qed.
 
-(* Observation (outside the property's quantifier): nothing at all is attached - code OK, no
-   message, no details, hence empty details bytes - and the caller's metadata has a
-   grpc-status-details-bin entry of its own: that entry is what the status read back has as details *)
-Theorem own_details_entry_travels md v rest :
+(* The former observation F-C04e (fixed by commit ed827503): nothing at all is attached - code OK,
+   no message, no details, hence empty details bytes - and the caller's metadata has a
+   grpc-status-details-bin entry of its own: the header is removed from what is written, the status
+   read back has NO details (before the fix: that entry's first value), and the entry itself is not
+   delivered *)
+Theorem own_details_entry_dropped md v rest :
   hm_get_all md hdr_grpc_status_details = v :: rest ->
   exists st m st',
     with_error_details_vec_c 0 [] [] md = Ok st /\ st_details st = [] /\
     to_header_map st = Some m /\ from_header_map m = Some st' /\
-    match dec v with
-    | Some d => st_code st' = 0 /\ st_msg st' = [] /\ st_details st' = d
-    | None => st_code st' = Code_Unknown /\ st_details st' = []
-    end.
+    hm_get_all m hdr_grpc_status_details = [] /\
+    st_code st' = 0 /\ st_msg st' = [] /\ st_details st' = [] /\
+    hm_get_all (st_md st') hdr_grpc_status_details = [].
 Proof.
   intros Hown. exists (mkStatus 0 [] [] md).
   destruct (status_own_details_entry (mkStatus 0 [] [] md) v rest) as (m & st' & H1 & H2 & H3);
@@ -1070,14 +1009,13 @@ Qed.
 Theorem built_roundtrip code message ops md :
   is_code code = true -> utf8_valid message = true -> bytes_ok message = true ->
   Forall bop_ok ops -> fits_c code message (pushed (ed_build ops)) ->
-  hm_get_all md hdr_grpc_status_details = [] \/ something_attached code message (pushed (ed_build ops)) ->
   exists st m st',
     with_error_details_c code message (ed_build ops) md = Ok st /\
     to_header_map st = Some m /\ from_header_map m = Some st' /\
     check_error_details_c st' = Ok (ed_build ops) /\ get_error_details_c st' = Ok (ed_build ops).
 Proof.
-  intros Hc Hu Hb Hops Hfit Hmd.
-  destruct (details_set_roundtrip code message (ed_build ops) md Hc Hu Hb (ed_build_ok ops Hops) Hfit Hmd)
+  intros Hc Hu Hb Hops Hfit.
+  destruct (details_set_roundtrip code message (ed_build ops) md Hc Hu Hb (ed_build_ok ops Hops) Hfit)
     as (st & m & st' & E1 & E2 & E3 & _ & _ & R1 & R2 & _).
   exists st, m, st'. auto.
 Qed.
